@@ -8,7 +8,8 @@
 (* order of hand strengths at the river.                                    *)
 (***************************************************************************)
 EXTENDS HoldemProps
-CONSTANTS NSet, BankSet, Structs, Limits, AmtLo, AmtHi, S, Props, TrackHist
+CONSTANTS NSet, BankSet, Structs, Limits, AmtLo, AmtHi, S, Props, TrackHist,
+          RecordOut   \* FALSE: `out` keeps only the ok flag (liveness configuration: no VIEW allowed there)
 VARIABLES gs, out, h
 vars == <<gs, out, h>>
 
@@ -42,7 +43,7 @@ Init == /\ \E c \in GoodConfigs : gs = NewGame(c)
 
 Do(name, i, x, r) ==
   /\ gs' = r.g
-  /\ out' = [op |-> name, seat |-> i, x |-> x, ok |-> r.ok]
+  /\ out' = IF RecordOut THEN [op |-> name, seat |-> i, x |-> x, ok |-> r.ok] ELSE [op |-> "-", seat |-> -1, x |-> 0, ok |-> r.ok]
   /\ h' = IF TrackHist THEN HistNext(h, gs, r.g, [op |-> name, seat |-> i, x |-> x, ok |-> r.ok]) ELSE h
 Amts == AmtLo..AmtHi
 Next ==
@@ -65,7 +66,9 @@ Spec == Init /\ [][Next]_vars
 \* accepted, state-changing steps only: for liveness (C06: every path of accepted operations is finite)
 Accepted == Next /\ out'.ok /\ gs' # gs
 LiveSpec == Init /\ [][Next]_vars /\ WF_vars(Accepted)
-Terminates == <>(gs.ev = "GameClosed")
+\* C06: whatever the players choose, a started hand reaches GameClosed (no cycle of accepted
+\* operations, no stuck wait point); a configuration the engine does not accept never starts
+Terminates == (gs.ev = "" /\ ~StartAllowed(gs)) \/ <>(gs.ev = "GameClosed")
 \* Start is refused in configurations the engine does not accept: there the hand never starts
 StartsOrRefused == []<>(gs.ev # "" \/ ~StartAllowed(gs))
 
